@@ -377,7 +377,16 @@ impl Property for Update {
             let m = match (m, &upd) {
                 (Err(e), Err((k, _))) => {
                     ensure!(e.kind() == *k, "update:error-kind-differs", "{}: step {i} {:?}: update fails with {k:?}, the update command with {:?}", case.family, line, e.kind());
-                    ctx.label("step-rejected");
+                    // an update command never requires anything: every argument and subcommand is optional there
+                    ensure!(
+                        !matches!(k, clap::error::ErrorKind::MissingRequiredArgument | clap::error::ErrorKind::MissingSubcommand),
+                        format!("update:update-command-requires-something:{k:?}"),
+                        "{}: step {i} {:?} on {cur:?}: command_for_update() itself rejects the line with {k:?}: {}",
+                        case.family,
+                        line,
+                        e.to_string().lines().next().unwrap_or("")
+                    );
+                    ctx.label_owned(format!("step-rejected:{k:?}"));
                     break;
                 }
                 (Err(e), Ok(v)) => {
